@@ -32,10 +32,19 @@ Dec(n) == IF n < 10 THEN <<48 + n>> ELSE Dec(n \div 10) \o <<48 + (n - 10 * (n \
 WideO(n, last) == VObj([i \in 1..n |-> <<<<107>> \o Dec(i), IF i = n THEN last ELSE VNum(N_one)>>])
 WideORev(n, last) == VObj([i \in 1..n |-> <<<<107>> \o Dec(n + 1 - i), IF i = 1 THEN last ELSE VNum(N_one)>>])
 LongS(n, c) == VStr([i \in 1..n |-> IF i = n THEN c ELSE 97])
+\* key-length ladder: two-member objects whose first key has n bytes and ends in k / K / l (equal, equal after folding, different), in both member
+\* orders and with two values: compared with one another for the same n only (KeyLens)
+LongKey(n, c) == [i \in 1..n |-> IF i = n THEN c ELSE 107]
+LongKeyLens == {1, 2, 15, 16, 17, 31, 32, 33, 39, 40, 41, 63, 64, 65, 127, 128, 129, 255, 256, 257, 1023, 1024, 1025}
+LongKeyObjs == {VObj(<<<<LongKey(n, c), VNum(x)>>, <<<<98>>, VNum(N_one)>>>>) : n \in LongKeyLens, c \in {107, 75, 108}, x \in {N_one, N_two}}
+               \cup {VObj(<<<<<<98>>, VNum(N_one)>>, <<LongKey(n, c), VNum(x)>>>>) : n \in LongKeyLens, c \in {107, 75, 108}, x \in {N_one, N_two}}
+KeyLens(v) == {Len(v.m[i].k) : i \in DOMAIN v.m}
 BigVals == {WideA(n, x) : n \in {999, 1000, 1001, 5001, 10000, 10001, 12000}, x \in {VNum(N_one), VNum(N_two)}}
            \cup {WideA(9990, WideA(20, VNull)), WideA(9990, WideA(20, VTrue))}
            \cup {WideO(n, x) : n \in {300, 301}, x \in {VNum(N_one), VNull}} \cup {WideORev(n, VNum(N_one)) : n \in {300, 301}}
            \cup {LongS(n, c) : n \in {255, 256, 257, 5000}, c \in {97, 98}}
+           \cup LongKeyObjs
+
 \* every pair of catalogue numbers (tolerance boundaries at +1, -1, -2, 1.75, 2^52, 1e300, the int range, zero, non-finite), bare and inside an array
 \* objects of four members in every member order with every choice of two values: permutation and mutation combined
 Keys4 == <<<<97>>, <<98>>, <<99>>, <<100>>>>
@@ -62,7 +71,7 @@ FoldLemma == \A x \in {<<120, 91, 121>>, <<88, 123, 89>>, <<120, 64>>, <<>>} : \
                KeyEq(x, y, FALSE) <=> (Len(x) = Len(y) /\ \A i \in DOMAIN x : FoldTable[x[i]] = FoldTable[y[i]])
 EmitFold == /\ Assert(FoldLemma, "key folding is not byte-wise") /\ (Emit => PrintT(ToJson(<<"K", FoldTable>>)))
 Next == /\ phase = 0 /\ phase' = 1 /\ UNCHANGED <<a, cs>>
-        /\ b' \in (IF Tier = "nums" THEN {y \in Universe(cs) : y.t = a.t} ELSE IF Tier = "big" THEN {y \in Universe(cs) : y.t = a.t /\ Len(y.m) = Len(a.m) /\ Len(y.s) = Len(a.s)} ELSE Universe(cs))   \* wide values only against their own variants
+        /\ b' \in (IF Tier = "nums" THEN {y \in Universe(cs) : y.t = a.t} ELSE IF Tier = "big" THEN {y \in Universe(cs) : y.t = a.t /\ Len(y.m) = Len(a.m) /\ Len(y.s) = Len(a.s) /\ KeyLens(y) = KeyLens(a)} ELSE Universe(cs))   \* wide values only against their own variants
         /\ (IF Tier = "fold" THEN (cs => EmitFold) ELSE Check(a, b', cs))
 
 RECURSIVE HasNaN(_)
